@@ -17,6 +17,7 @@
 #include <thread>
 #include <unordered_set>
 #include <vector>
+#include <sched.h>
 #include <time.h>
 #include <unistd.h>
 #include <sys/syscall.h>
@@ -210,7 +211,12 @@ struct SpinBarrier
   {
     int g = gen.load();
     if (waiting.fetch_add(1) + 1 == n) { waiting.store(0); gen.fetch_add(1); }
-    else while (gen.load() == g) { }
+    else
+    {
+      // spin briefly (tight release), then yield so an oversubscribed machine still makes progress
+      unsigned spins = 0;
+      while (gen.load() == g) { if (++spins > 4000) { sched_yield(); } else { __builtin_ia32_pause(); } }
+    }
   }
 };
 
